@@ -140,7 +140,7 @@ type crBatch struct {
 	ID      int    `json:"id"`
 	Kind    string `json:"kind"` // write | big | tx | txdiscard
 	Sync    bool   `json:"sync,omitempty"`
-	Ops     []crOp  `json:"ops"`
+	Ops     []crOp `json:"ops"`
 	Compact bool   `json:"compact,omitempty"` // CompactRange after it
 	Chunks  int    `json:"chunks,omitempty"`  // tx: the body is written with this many Transaction.Write calls
 }
@@ -630,19 +630,19 @@ type crImgCase struct {
 }
 
 type crashEnv struct {
-	c        *Ctx
-	sigPref  string // "" for C04, "tx:" for C11
-	spec     *crSpec
-	batches  []*crBatch
-	o        *opt.Options
-	maxDepth int   // nested crash levels below the first image
-	nestProb [2]int // chance (num, den) that an op of a recovery yields a nested image
-	usable   int   // 1 in n images gets the usability part
-	leanLeft *int64
+	c         *Ctx
+	sigPref   string // "" for C04, "tx:" for C11
+	spec      *crSpec
+	batches   []*crBatch
+	o         *opt.Options
+	maxDepth  int    // nested crash levels below the first image
+	nestProb  [2]int // chance (num, den) that an op of a recovery yields a nested image
+	usable    int    // 1 in n images gets the usability part
+	leanLeft  *int64
 	leanEvery int
-	stopped  int32
-	progress int64
-	nimg     int64
+	stopped   int32
+	progress  int64
+	nimg      int64
 }
 
 func (e *crashEnv) allowed(ic *crImgCase) func(id int) bool {
@@ -682,9 +682,13 @@ func (e *crashEnv) check(ic *crImgCase, r *rng.R) {
 	if depth <= e.maxDepth {
 		sh := crShadowOf(work)
 		nr := r.Fork()
+		maxNested := 4
+		if depth > 1 {
+			maxNested = 2
+		}
 		work.SetHooks(nil, func(s *stor.Stor, op stor.Op) {
 			atomic.AddInt64(&e.progress, 1)
-			if len(nested) < 6 && nr.Chance(e.nestProb[0], e.nestProb[1]) {
+			if len(nested) < maxNested && nr.Chance(e.nestProb[0], e.nestProb[1]) {
 				seed := nr.U64()
 				pols, _ := sh.policies(seed)
 				for _, p := range pols {
@@ -733,6 +737,7 @@ func (e *crashEnv) check(ic *crImgCase, r *rng.R) {
 			c.Res.Count("lean", "images")
 		}
 	}
+	full := got.clone()
 	for k := range got {
 		if strings.HasPrefix(k, "zz-") { // probe writes of the harness itself
 			delete(got, k)
@@ -773,7 +778,7 @@ func (e *crashEnv) check(ic *crImgCase, r *rng.R) {
 	}
 	// usability: the reopened DB takes writes, compacts, closes and reopens with the same contents
 	if e.usable > 0 && r.Intn(e.usable) == 0 {
-		if oracle, msg := e.usability(db, work, got, &closed); oracle != "" {
+		if oracle, msg := e.usability(db, work, full, &closed); oracle != "" {
 			e.violate(oracle, msg, ic, pristine)
 			return
 		}
@@ -859,12 +864,12 @@ func (e *crashEnv) usability(db *leveldb.DB, work *stor.Stor, got kvmap, closed 
 // crashRun executes one workload on a fresh DB and, from the Before hook of every `every`-th mutating
 // storage operation after Open returned, takes and checks crash images.
 type crashRun struct {
-	env      *crashEnv
-	every    int
-	maxImgs  int // 1..maxImgs images per crash point
-	issued   int64
-	mu       sync.Mutex
-	acked    []int
+	env     *crashEnv
+	every   int
+	maxImgs int // 1..maxImgs images per crash point
+	issued  int64
+	mu      sync.Mutex
+	acked   []int
 	// optional: concurrent-writer probe while a transaction is open (C11)
 	probeBlocked bool
 }
